@@ -749,6 +749,12 @@ func (d *partialArray) get(key string, options *ApplyOptions) (*lazyNode, error)
 func (d *partialArray) remove(key string, options *ApplyOptions) error {
 	idx, err := strconv.Atoi(key)
 	if err != nil {
+		if errors.Is(err, strconv.ErrRange) && options.AllowMissingPathOnRemove &&
+			(key[0] != '-' || options.SupportNegativeIndices) {
+			// An index with more digits than an int holds lies outside
+			// every array, like any other out-of-range index.
+			return nil
+		}
 		return err
 	}
 
